@@ -8,7 +8,7 @@
 EXTENDS Integers, Sequences, FiniteSets, TLC
 
 Kinds == {"ptr", "error", "any", "slice", "map", "chan", "func", "struct", "array", "int", "float", "string", "bool"}
-Classes == {"nil", "typednil", "zero", "val", "concrete", "lookalike", "samesize", "diffsize"}
+Classes == {"nil", "typednil", "zero", "val", "concrete", "nilconcrete", "lookalike", "samesize", "diffsize"}
 Nilable == {"ptr", "error", "any", "slice", "map", "chan", "func"}
 IfaceK == {"error", "any"}
 
@@ -17,13 +17,14 @@ Cell(k, c) == CASE c = "nil" -> TRUE
                 [] c = "typednil" -> k \in {"ptr", "slice", "map", "chan", "func"}
                 [] c \in {"zero", "val"} -> k \notin IfaceK
                 [] c = "concrete" -> k \in IfaceK
+                [] c = "nilconcrete" -> k \in IfaceK          \* a typed nil pointer IS a concrete value: (*T)(nil) into error / interface{}
                 [] c = "lookalike" -> k \in {"struct", "ptr"}
                 [] c = "samesize" -> k \in {"int", "float", "struct"}
-                [] c = "diffsize" -> k \in {"int", "float", "struct", "array", "string", "bool"}
+                [] c = "diffsize" -> k \in {"int", "float", "struct", "array", "string", "bool", "slice", "map"}
 
 Req(k, c) == CASE c = "nil" -> (IF k \in Nilable THEN "typedzero" ELSE "free")
                [] c \in {"typednil", "zero", "val"} -> "same"
-               [] c = "concrete" -> "boxed"
+               [] c \in {"concrete", "nilconcrete"} -> "boxed"
                [] c = "lookalike" -> "retyped"
                [] c = "samesize" -> "free"            \* same size, other type or layout: the statement is silent
                [] c = "diffsize" -> "rejected"
